@@ -177,6 +177,18 @@ func TestC18_scalar_json(t *testing.T) {
 			return
 		}
 		dst := st.NewMut(7)
+		if st.IsReal() && rapid.Bool().Draw(t, "usedReceiver") {
+			// the receiver carries derivatives of its own from an earlier use
+			k := rapid.IntRange(1, 3).Draw(t, "receiverN")
+			dst.(MagicScalar).Alloc(k, rapid.IntRange(1, 2).Draw(t, "receiverOrder"))
+			for i := 0; i < k; i++ {
+				dst.(MagicScalar).SetDerivative(i, 3+float64(i))
+				if dst.GetOrder() >= 2 {
+					dst.(MagicScalar).SetHessian(i, k-1, 5)
+				}
+			}
+			c.Class("receiver has derivatives of its own")
+		}
 		if p := call(func() { err = json.Unmarshal(b, ptrTo(dst)) }); p != "" {
 			t.Fatalf("%s: Unmarshal of %s panicked: %s", c.Desc(), b, p)
 		}
@@ -201,6 +213,10 @@ type vecCase struct {
 func drawVec(t *rapid.T) (Vector, string, gen.SType, bool) {
 	st := gen.DrawType(t, "elem", gen.MutableTypes)
 	sparse := rapid.Bool().Draw(t, "sparse")
+	return drawVecOf(t, st, sparse)
+}
+
+func drawVecOf(t *rapid.T, st gen.SType, sparse bool) (Vector, string, gen.SType, bool) {
 	n := rapid.IntRange(0, 8).Draw(t, "n")
 	var v Vector
 	if sparse {
@@ -279,6 +295,12 @@ func TestC18_vector_json(t *testing.T) {
 			t.Fatalf("%s: MarshalJSON panic=%q err=%v", c.Desc(), p, err)
 		}
 		dst := newLike(v)
+		if rapid.Bool().Draw(t, "usedReceiver") {
+			v2, desc2, _, _ := drawVecOf(t, st, strings.Contains(desc, "sparse=true"))
+			dst = reflect.ValueOf(ptrTo(v2))
+			c.SetDesc(c.Desc() + " into receiver " + desc2)
+			c.Class("used receiver")
+		}
 		if p := call(func() { err = json.Unmarshal(b, dst.Interface()) }); p != "" {
 			t.Fatalf("%s: Unmarshal panicked: %s (json %s)", c.Desc(), p, b)
 		}
@@ -299,6 +321,10 @@ func TestC18_vector_json(t *testing.T) {
 func drawMat(t *rapid.T) (Matrix, string, gen.SType, string) {
 	st := gen.DrawType(t, "elem", gen.MutableTypes)
 	sparse := rapid.Bool().Draw(t, "sparse")
+	return drawMatOf(t, st, sparse)
+}
+
+func drawMatOf(t *rapid.T, st gen.SType, sparse bool) (Matrix, string, gen.SType, string) {
 	rows, cols := rapid.IntRange(1, 5).Draw(t, "rows"), rapid.IntRange(1, 5).Draw(t, "cols")
 	var m Matrix
 	if sparse {
@@ -365,6 +391,13 @@ func TestC18_matrix_json_views(t *testing.T) {
 			t.Fatalf("%s: MarshalJSON panic=%q err=%v", c.Desc(), p, err)
 		}
 		dst := newLike(m)
+		if rapid.Bool().Draw(t, "usedReceiver") {
+			// read into an object that has a history (other dimensions, a transposed or sliced view)
+			m2, desc2, _, view2 := drawMatOf(t, st, strings.Contains(desc, "sparse=true"))
+			dst = reflect.ValueOf(m2)
+			c.SetDesc(c.Desc() + " into receiver " + desc2)
+			c.Classf("receiver=%s", view2)
+		}
 		if p := call(func() { err = json.Unmarshal(b, dst.Interface()) }); p != "" {
 			t.Fatalf("%s: Unmarshal panicked: %s (json %s)", c.Desc(), p, b)
 		}
@@ -423,6 +456,19 @@ func TestC18_table_export_import(t *testing.T) {
 			os.WriteFile(file, buf.Bytes(), 0644)
 		}
 		dst := newLike(obj)
+		if rapid.Bool().Draw(t, "usedReceiver") {
+			sp := strings.Contains(desc, "sparse=true")
+			if isMatrix {
+				m2, desc2, _, _ := drawMatOf(t, st, sp)
+				dst = reflect.ValueOf(m2)
+				c.SetDesc(c.Desc() + " into receiver " + desc2)
+			} else {
+				v2, desc2, _, _ := drawVecOf(t, st, sp)
+				dst = reflect.ValueOf(ptrTo(v2))
+				c.SetDesc(c.Desc() + " into receiver " + desc2)
+			}
+			c.Class("used receiver")
+		}
 		imp, ok := dst.Interface().(interface{ Import(string) error })
 		if !ok {
 			t.Fatalf("%s: type %T has no Import", c.Desc(), dst.Interface())
